@@ -354,7 +354,7 @@ def _resolve_helper(index, fi, call):
     f = call.func
     target = None
     if isinstance(f, ast.Name):
-        target = fi.module.functions.get(f.id)
+        target = index.resolve_function(fi.module, f.id)
     elif isinstance(f, ast.Attribute) and isinstance(f.value, ast.Name) and fi.cls is not None:
         if f.value.id in ("self", "cls") and fi.node.args.args and fi.node.args.args[0].arg == f.value.id:
             target = fi.cls.method(f.attr)
@@ -366,7 +366,9 @@ def _resolve_helper(index, fi, call):
     if target is None or target.node is fi.node:
         return None
     name = target.node.name
-    if not name.startswith("_") or name.startswith("__"):
+    import os as _os
+    private_module = _os.path.basename(target.module.rel).startswith("_") and not _os.path.basename(target.module.rel).startswith("__")
+    if (not name.startswith("_") and not private_module) or name.startswith("__"):
         return None
     if name in _OPTS["exclude"]:
         return None
